@@ -270,6 +270,24 @@ func TestC11(t *testing.T) {
 				if d := sameSpec(fs, s.ID, s.KEM, s.Pub, s.Suites, s.Name); d != "" {
 					ev.Violation(t, "C11", map[string]any{"bytes": hx(foreign)}, "Spec() of a config published by another tool: %s", d)
 				}
+				// and the parsed spec encodes again to a well-formed config with the same fields
+				// (whatever this library does with extensions it does not know)
+				var again ech.Config
+				if e := guard(func() error { var e error; again, e = fs.Bytes(); return e }); e != nil {
+					ev.Violation(t, "C11", map[string]any{"bytes": hx(foreign)}, "Bytes() of the spec parsed from a foreign config failed: %v", e)
+				}
+				extsOK := func(b []byte) bool { // ECHConfigExtension entries: type, 16-bit length, data
+					for len(b) > 0 {
+						if len(b) < 4 || len(b) < 4+(int(b[2])<<8|int(b[3])) {
+							return false
+						}
+						b = b[4+(int(b[2])<<8|int(b[3])):]
+					}
+					return true
+				}
+				if af, perr := hello.ParseConfig(again); perr != nil || af.Len != len(again) || !extsOK(af.Extensions) || af.ID != s.ID || af.KEM != s.KEM || !bytes.Equal(af.PublicKey, s.Pub) || !bytes.Equal(af.PublicName, s.Name) || len(af.Suites) != len(s.Suites) {
+					ev.Violation(t, "C11", map[string]any{"foreign": hx(foreign), "reencoded": hx(again)}, "a foreign config parsed with Spec() and encoded again with Bytes() is not a well-formed ECHConfig with the same fields (harness decode err=%v)", perr)
+				}
 				fl := append([]byte{byte(len(foreign) >> 8), byte(len(foreign))}, foreign...)
 				var fps []ech.ConfigSpec
 				if e := guard(func() error { var e error; fps, e = ech.ParseConfigList(fl); return e }); e != nil || len(fps) != 1 || func() bool {
